@@ -57,6 +57,11 @@ def run(run):
                 cases.append({"backup": backup, "bootstrap": bootstrap, "kind": "gated",
                               "workers": [{"pages": [1, 0], "gate": {"line": k}}, {"pages": [1, 4]}]})
                 if k <= len(line_fns) and line_fns[k - 1] == "add_empty_sandbox_lua_module" and not backup:
+                    # the other worker is held back until the paused one is at its line, then makes its first Lua use: when the
+                    # pause is inside the bootstrap transaction (at most 1 s) it has to wait for the lock, and does
+                    cases.append({"backup": backup, "bootstrap": bootstrap, "kind": "gated-staged",
+                                  "workers": [{"pages": [1, 0], "gate": {"line": k}},
+                                              {"pages": [1, 4], "gate": {"page": 0, "release_on": 0}}]})
                     # the same pause, while the other worker walks get_all_pages() (its read cursor open) and reaches its
                     # first Lua use
                     cases.append({"backup": backup, "bootstrap": bootstrap, "kind": "gated-iterating",
